@@ -82,6 +82,9 @@ func (s *Durable) store(tx *buntdb.Tx, key string, t Value) {
 	}
 
 	tx.Set(key, t.encode(), opts)
+
+	// Evict the cached copy, otherwise reads would keep returning the old value
+	s.cache.Del(binary.ToBytes(key))
 }
 
 // Fetch fetches the item either from transaction or cache.
